@@ -2,6 +2,7 @@
 """Re-run the registered checks against every kept seeded change (apply to /repo, check, restore).
 usage: run_seeded.py [--update] [seed-id ...]   (--update: run all 19 checks and rewrite meta.json)   -> table seed / property / detected-by"""
 import sys, os, json, subprocess
+os.environ['VERIF_EVIDENCE_DIR'] = '/tmp/pp-evidence-scratch'
 VERIF = os.path.dirname(os.path.dirname(os.path.abspath(__file__)))
 
 
